@@ -25,7 +25,9 @@ LANGS = ["english", "french", "german", "italian", "spanish"]
 CONSTS = ["CONST_A", "TRUE", "FALSE", "$SCENARIO_MAIN", "$x", "ACTOR_PLAYER", "LEVEL_S01P01A", "a", "_u", "X9",
           "label_0", "DIR_DOWN"]
 STRS = ["", "a", "Hello world", "Hi [hero]!", "x=1, y=2;", "@label_0", "// no comment", "tab\there", "ünï ö",
-        "a { b } c", "1.5", "/* c */", "it's", 'say "x"', "line1\nline2", " lead", "trail ", "(p)", "§x", "#"]
+        "a { b } c", "1.5", "/* c */", "it's", 'say "x"', "line1\nline2", " lead", "trail ", "(p)", "§x", "#",
+        # multi-line shapes inside C04's round-trip guard: empty inner lines (paragraph breaks), indented continuation lines
+        "para1\n\npara2", "a\n  indented\nb", "x\n\n\ny", "first\n second\n\nthird"]
 PM_NAMES = ["m", "Pos 1", "", "ünï", "a,b", "<x>"]
 FIXED = ["1.5", "0.0", "-0.25", "12.50", "3.125", "-7.0", "100.001", "0.5"]
 CORO_NAMES = ["CORO_A", "EVENT_M01", "walk_around", "X1", "_c", "END_TALK"]
